@@ -342,3 +342,20 @@ func mapLiteralInts(w *core.World, pkg, varName string) map[string]int64 {
 	}
 	return out
 }
+
+// lastDecisionPos is the source position of the last branch condition a path took.
+func lastDecisionPos(p *core.Path) token.Pos {
+	for i := len(p.Conds) - 1; i >= 0; i-- {
+		if pos := p.Conds[i].Cond.Pos(); pos.IsValid() {
+			return pos
+		}
+		if ins, ok := p.Conds[i].Cond.(ssa.Instruction); ok {
+			for _, op := range ins.Operands(nil) {
+				if *op != nil && (*op).Pos().IsValid() {
+					return (*op).Pos()
+				}
+			}
+		}
+	}
+	return token.NoPos
+}
